@@ -11,6 +11,7 @@ import (
 	"path/filepath"
 	"strconv"
 	"strings"
+	"time"
 
 	"github.com/AdguardTeam/urlfilter"
 	"github.com/AdguardTeam/urlfilter/filterlist"
@@ -483,8 +484,25 @@ func c19Run(c *core.Ctx, idx int) {
 
 		return
 	}
+	// Two cases let real time pass between opening the list and the fault (a
+	// list that re-checks its file every few seconds, or every minute, behaves
+	// differently only then): one fault point per fault kind, after a pause.
+	var pause time.Duration
+	switch {
+	case idx == 2 || idx == 3:
+		pause = 5500 * time.Millisecond
+	case idx == 4 && c.Env.Tier == core.Thorough:
+		pause = 61 * time.Second
+	}
 	for _, fault := range c19FaultKinds {
+		kSlow := -1
+		if pause > 0 {
+			kSlow = c.Rng.Intn(n + 1)
+		}
 		for k := 0; k <= n; k++ {
+			if pause > 0 && k != kSlow {
+				continue
+			}
 			t, berr := c19Build(kind, file)
 			if berr != nil {
 				c.Inconclusive("cannot build file-backed engine")
@@ -514,6 +532,10 @@ func c19Run(c *core.Ctx, idx int) {
 							}
 						})
 						c.Event("fault_points_after_a_second_scan_of_the_storage", 1)
+					}
+					if pause > 0 {
+						time.Sleep(pause)
+						c.Event("fault_points_after_a_pause_of_seconds", 1)
 					}
 					if ierr := c19Inject(t, fault, dir); ierr != nil && !strings.HasPrefix(fault, "storage-close") {
 						c.Inconclusive("fault injection failed")
@@ -614,6 +636,7 @@ func init() {
 		Level: "fault_enumeration",
 		Rule: "per case one file-backed list (DNS: rules + hosts lines over colliding names; network: a pool mixing all index paths) and one query history of 10..30 (thorough 10..60) queries drawn with repeats from 8 distinct requests; in half of the cases the list is padded beyond the 4 KiB read block so that a rule straddles a block boundary exactly where its prefix is a valid broader rule matching a request of the history; for EVERY fault point k in 0..n and every fault kind in {RuleStorage.Close, file handle replaced by an already closed descriptor, by a directory descriptor (Seek succeeds, reads fail with EISDIR), by the read end of a closed pipe (Seek fails with ESPIPE), by an already closed descriptor of ANOTHER file that holds different matching rules at the same offsets, RuleStorage.Close followed by opening that other file four times (descriptor numbers are recycled)} the engine is rebuilt, queries before k must equal a String-backed twin, queries from k on must not panic, must return a subset of the fault-free result whose members individually match, and must still return every rule materialised before k (tracked from storage.insert hook events, cross-checked with GetCacheSize); " +
 			"each case under one of four logger configurations of log/slog (default, text or JSON at debug level, above error); " +
+			"cases 2 and 3 pause 5.5 s (thorough: case 4 pauses 61 s) of real time before one fault point per fault kind; " +
 			"plus one case that materialises 9 000 (thorough 70 000) rules before each kind of fault and demands all of them afterwards; non-trivial = every (list, history) pair, each contributing 6*(n+1) fault placements; distinct by list and history length",
 		Assumptions: []string{
 			"the fault-free oracle is a String-backed twin engine over the same bytes",
